@@ -642,3 +642,44 @@ def run_getter_verbatim(prog, rep, floor=60):
     if n < floor:
         raise AnalysisBroken('R-GETVERB: only %d getters found' % n)
     return rule
+
+
+def run_ctor_pairs(prog, rep):
+    """the creating and the opening constructor of a backend class bind every container member to the same group name"""
+    rule = rep.rule('R-CTORPAIR', 'all constructors of a backend class open each container member under the same literal group name (what the creating handle writes is what a handle opened later reads)', floor=8)
+    by = {}
+    for f in sorted(prog.funcs.values(), key=lambda f: (f.file, f.line)):
+        if f.body is None or f.kind != 'ctor' or not (f.cls or '').startswith('nix::hdf5::'):
+            continue
+        got = {}
+        for x in f.walk():
+            tgt = None
+            if ((x.k == 'call' and x.get('op') == '=') or x.k == 'assign') and len(x.c) == 2 and x.c[1] is not None:
+                tgt, src = term(unwrap(x.c[0])), x.c[1]
+            elif x.k == 'ctorinit' and x.a.get('field'):
+                tgt, src = ('f', x.a.get('field')), x
+            if tgt is None:
+                continue
+            cs = [c for c in src.walk() if c.k == 'call' and (c.callee or {}).get('name') in ('openOptGroup', 'openGroup')]
+            if cs:
+                a = [term(unwrap(y)) for y in real_args(cs[0]) if y is not None]
+                got[tgt] = (a[0] if a else None, cs[0])
+        if got:
+            by.setdefault(f.cls, []).append((f, got))
+    n = 0
+    for cls, lst in sorted(by.items()):
+        if len(lst) < 2:
+            continue
+        members = sorted(set(k for f, g in lst for k in g), key=repr)
+        for mbr in members:
+            n += 1
+            vals = [(f, g.get(mbr)) for f, g in lst]
+            names = set((v[0] if v is not None else None) for f, v in vals)
+            where = rep.where([v for f, v in vals if v is not None][0][1])
+            rule.check(len(names) == 1 and None not in names, '%s|%s' % (cls, mbr[-1]), where, cls,
+                       'every constructor opens %s under %r' % (mbr[-1], list(names)[0]),
+                       'constructors disagree on the group behind %s: %s - what is written through the handle returned by create is not found by a handle opened later (after reopen)' % (
+                           mbr[-1], ', '.join('%s%s -> %s' % (f.name, f.sig[:40], (v[0][1] if v is not None and isinstance(v[0], tuple) else v)) for f, v in vals)))
+    if n < 8:
+        raise AnalysisBroken('R-CTORPAIR: only %d container members with two constructors' % n)
+    return rule
